@@ -1692,6 +1692,11 @@ pub fn check_text(text: &str, tok_offs: &[usize], label: &str, detectors: &[Dete
                 // construct" is either (a build that reports `revert("...")` may point at the statement or at the message):
                 // inside a gray construct every line on which a node of it begins is admissible
                 (Mode::LocationOnly, Some(x)) if !x.must && sub_construct(x) => {}
+                // the construct's own first line is reported as well: then this line is not where the finding MOVED to but a
+                // further finding, on the first line of a node inside the construct (a build whose pattern is wider than the
+                // documented one — `(q += 1)++` with `q += 1` reported too); whether that finding may exist is the business of
+                // the semantic checks, its location is in order
+                (Mode::LocationOnly, Some(x)) if sub_construct(x) && x.anchors.iter().any(|&a| got.contains(&crate::layout::line_of(text, a))) => {}
                 (Mode::LocationOnly, Some(x)) => res.violations.push(Violation {
                     site: format!("{}:location:{}", d.name, x.kind),
                     input: text.to_string(),
